@@ -356,11 +356,12 @@ func (s *socket) AddPipe(pp protocol.Pipe) error {
 	p := &pipe{
 		p:      pp,
 		s:      s,
-		sendQ:  make(chan *protocol.Message, s.sendQLen),
 		closeQ: make(chan struct{}),
 	}
 	pp.SetPrivate(p)
 	s.Lock()
+	// sized under the lock: SetOption may be changing the length
+	p.sendQ = make(chan *protocol.Message, s.sendQLen)
 	if s.closed {
 		s.Unlock()
 		return protocol.ErrClosed
